@@ -492,6 +492,47 @@ def rule_r3(facts, col):
             col.ok("C02.R3", body.q + ":no-sort", body.where(), "the read window does not re-order the tag list at all")
 
 
+def rule_r10(facts, col, rule_id="C02.R10"):
+    """a read window and the tags handed out with it are one snapshot: `Buffer::read_buf` - together with every crate-local
+    function it calls, the window constructor included - takes the state lock exactly once.  With a second acquisition (bounds
+    re-read inside the constructor, tags collected by a helper that locks on its own) a commit can land in between: the window
+    then covers samples whose tags are not in the list, and consuming the window deletes them undelivered - or the list holds a
+    tag just outside the window, which is delivered again with the next one."""
+    cg = CallGraph(facts)
+    n = 0
+    for body in facts.bodies:
+        if body.kind == "closure" or body.name != "read_buf" or not (body.self_adt or "").startswith("circular_buffer::Buffer"):
+            continue
+        n += 1
+        locks = [(body, bb) for bb, t in body.calls_to(MUTEX_LOCK)]
+        seen = {body.q}
+        frontier = [body]
+        for _ in range(3):
+            nxt = []
+            for b in frontier:
+                for bb, t in b.calls():
+                    for q in Body.callee_qs(t):
+                        for hb in facts.by_q.get(q, []):
+                            if hb.q in seen or hb.kind == "closure" or hb.file not in ("src/circular_buffer.rs", "src/stream.rs"):
+                                continue
+                            seen.add(hb.q)
+                            nxt.append(hb)
+                            locks += [(hb, lb) for lb, lt in hb.calls_to(MUTEX_LOCK)]
+            frontier = nxt
+        key = "%s:one-lock" % body.q
+        if len(locks) == 1:
+            col.ok(rule_id, key, body.where(locks[0][1]), "one lock acquisition covers the window bounds and the tag list (%d callees followed)" % (len(seen) - 1))
+        elif not locks:
+            col.bad(rule_id, key, body.where(), "read_buf() takes no lock at all", {})
+        else:
+            col.bad(rule_id, key, locks[1][0].where(locks[1][1]),
+                    "read_buf() takes the state lock %d times (%s): window bounds and tag list are no longer one snapshot - a commit "
+                    "between the acquisitions leaves tags of samples inside the window out of the list (consume() then deletes them "
+                    "undelivered) or puts a tag of a sample outside the window into it (delivered twice)"
+                    % (len(locks), ", ".join("%s" % b.q.split("::")[-1] + "@" + b.where(bb).split(":")[-1] for b, bb in locks)), {})
+    return n
+
+
 def run(ctx):
     facts = ctx.facts("default")
     ctx.anchor("C02", c01.STATE_ADT in facts.adts, "circular_buffer::BufferState")
@@ -502,6 +543,8 @@ def run(ctx):
     rule_r5(facts, ctx)
     rule_r9(facts, ctx)
     ctx.floor("C02.R9", 1, "tag-storing loop of the commit body")
+    rule_r10(facts, ctx)
+    ctx.floor("C02.R10", 1, "Buffer::read_buf")
     rule_r8(facts, ctx)
     ctx.floor("C02.R8", 1, "Buffer::read_buf")
     rule_r7(facts, ctx)
